@@ -52,14 +52,14 @@ def _base(kind):
 
 
 def gen_cases(tier, seed):
-    reps = {"quick": 22, "thorough": 300}[tier]
+    reps = {"quick": 22, "thorough": 1200}[tier]
     cases = []
     for kind in KINDS:
         for i in range(reps):
             s = stable_hash(seed, "C19", kind, i)
             cases.append({"id": "%s-%04d" % (kind, i), "family": "ops", "kind": kind, "seed": s, "eus": bool(i % 2),
                           "weights": bool((i // 2) % 2)})
-    for i in range({"quick": 24, "thorough": 200}[tier]):
+    for i in range({"quick": 24, "thorough": 800}[tier]):
         cases.append({"id": "eer-%04d" % i, "family": "eer", "kind": ["mc", "voi"][i % 2], "seed": stable_hash(seed, "C19", "eer", i),
                       "eus": False, "weights": bool((i // 2) % 2)})
     return cases
